@@ -100,7 +100,7 @@ def nnchainWith (chk : Bool) (m : MethodChain) (st : State α) (dend : Dendrogra
   let st := st.reset M.n
   let st := { st with chain := #[] }
   let s ← iterM (chainIter chk m) (M.n - 1) ⟨st, dend, M⟩
-  let (uf, dend) ← relabel m.intoMethod s.dend
+  let (uf, dend) ← relabel m.intoMethod s.st.set s.dend
   let dend := sqrtSteps m.intoMethod dend
   pure ({ s.st with set := uf }, dend, s.M)
 
